@@ -275,3 +275,109 @@ def rules(ctx: Ctx) -> None:
     from .common import import_rules as _imp02
 
     _imp02(ctx, "C06", {"R06.4": "R02.8"})
+
+    # ---- R02.9 select items are collected one for one: target columns are paired with them by position, so nothing may stand between the
+    # select clause elements and the list they are collected in (an item without source columns still occupies its position)
+    n_items = 0
+    for f in prog.funcs.values():
+        if not f.mod.name.startswith("sqllineage.core.parser.sqlfluff"):
+            continue
+        for n in prog.walk_fn(f):
+            it = None
+            if isinstance(n, (ast.ListComp, ast.GeneratorExp)) and len(n.generators) == 1:
+                it, filt, where_ = n.generators[0].iter, list(n.generators[0].ifs), n
+            elif isinstance(n, ast.For):
+                it, filt, where_ = n.iter, None, n
+            if it is None or not (isinstance(it, ast.Call) and isinstance(it.func, ast.Attribute) and it.func.attr == "get_children" and it.args and prog.try_fold(it.args[0], f.mod, f) == "select_clause_element"):
+                continue
+            # does the result go into the collected column list?
+            if isinstance(n, ast.For):
+                sinks = [k for k in ast.walk(n) if isinstance(k, ast.Call) and isinstance(k.func, ast.Attribute) and k.func.attr in ("append", "extend") and u(k.func.value).endswith(".columns")]
+                if not sinks:
+                    continue
+                fcfg = flow(prog, f).cfg
+                hdr = fcfg.node_for(n)
+                snodes = {fcfg.node_for(k) for k in sinks}
+                starts = [b_ for b_ in fcfg.g.successors(hdr) if fcfg.g[hdr][b_].get("label") and fcfg.g[hdr][b_]["label"][1] is True] if hdr is not None else []
+                ok = hdr is not None and None not in snodes and bool(starts) and not any(b_ not in snodes and fcfg.reach(b_, hdr, avoid=snodes) for b_ in starts)
+            else:
+                par = prog.parent(n)
+                if not (isinstance(par, ast.Call) and isinstance(par.func, ast.Attribute) and par.func.attr in ("extend",) and u(par.func.value).endswith(".columns")) and not (
+                        isinstance(par, (ast.Assign, ast.AugAssign)) and any(u(t).endswith(".columns") for t in (par.targets if isinstance(par, ast.Assign) else [par.target]))):
+                    continue
+                ok = not filt
+            n_items += 1
+            ctx.touched(f)
+            ctx.ob("R02.9", f"select-items-collected-one-for-one:{f.owner}", ok, loc(f.mod, where_),
+                   "every select clause element contributes exactly one entry, in order" if ok else "a condition decides whether a select clause element is collected: the items after a skipped one are paired with the wrong target columns")
+    ctx.floor("collections of select clause elements", n_items, 1)
+
+    # ---- R02.10 a query handed to an extractor is handed over once: the crawl that finds the top-level query of a parenthesised DML source stops at
+    # the first SELECT / set expression it meets (recurse_into=False) - nested SELECTs belong to the extractor it delegates to, and delegating
+    # them as well wires their columns straight into the target
+    n_deleg = 0
+    for f in prog.funcs.values():
+        if not f.mod.name.startswith("sqllineage.core.parser.sqlfluff.extractors"):
+            continue
+        for k in prog.walk_fn(f):
+            if not (isinstance(k, ast.Call) and isinstance(k.func, ast.Attribute) and k.func.attr == "recursive_crawl"):
+                continue
+            types_ = {prog.try_fold(a, f.mod, f) for a in k.args}
+            if not ({"select_statement", "set_expression"} & types_):
+                continue
+            # is what it finds delegated?  (a loop / name fed by the crawl whose element reaches a delegate_to* call)
+            deleg = [c for c in prog.walk_fn(f) if isinstance(c, ast.Call) and isinstance(c.func, ast.Attribute) and c.func.attr.startswith("delegate_to")
+                     and any(any(x is k for x in ast.walk(v)) if isinstance(v, ast.AST) else False for a in c.args for v in list(prog.influences(f, a)))]
+            if not deleg:
+                continue
+            n_deleg += 1
+            stops = any(kw.arg == "recurse_into" and isinstance(kw.value, ast.Constant) and kw.value.value is False for kw in k.keywords)
+            ctx.touched(f)
+            ctx.ob("R02.10", f"delegated-query-found-without-descending:{f.owner}", stops, loc(f.mod, k),
+                   f"`{u(k)[:70]}`: " + ("stops at the first query" if stops else "also yields the SELECTs nested inside the query that is delegated"))
+    ctx.floor("crawls whose findings are delegated to an extractor", n_deleg, 1)
+
+    # ---- R02.11 the qualifier of a dotted column reference is the part next to the column (`s.t.c`: column c of t) - taken from the same list of
+    # parts by the neighbouring index; the first part, or the whole prefix, names a relation the scope map does not know
+    ecq = prog.try_fn("sqlfluff.utils.extract_column_qualifier")
+    if ecq is None:
+        raise AnalysisError("extract_column_qualifier not found")
+    ctx.touched(ecq)
+    n_q = 0
+
+    qfl = flow(prog, ecq)
+
+    def _alts(e: ast.AST, site: ast.AST, depth: int = 0) -> list:
+        """the expressions `e` can stand for at `site`: reaching definitions of a local, both arms of a conditional expression"""
+        if depth > 4:
+            return [e]
+        if isinstance(e, ast.IfExp):
+            return _alts(e.body, site, depth + 1) + _alts(e.orelse, site, depth + 1)
+        if isinstance(e, ast.Name):
+            defs = [d for kind_, d in qfl.reaching_defs(site, e.id) if kind_ in ("assign", "annassign", "walrus") and getattr(d, "value", None) is not None]
+            if defs:
+                return [a_ for d in defs for a_ in _alts(d.value, d, depth + 1)]
+        return [e]
+
+    def _part(v: ast.AST):
+        if isinstance(v, ast.Attribute) and v.attr == "raw":
+            v = v.value
+        if isinstance(v, ast.Subscript) and not isinstance(v.slice, ast.Slice):
+            k_ = prog.try_fold(v.slice, ecq.mod, ecq)
+            if isinstance(k_, int):
+                return (u(v.value), k_)
+        return None
+
+    for k in prog.walk_fn(ecq):
+        if not (isinstance(k, ast.Call) and u(k.func).endswith("ColumnQualifierTuple") and len(k.args) == 2):
+            continue
+        cols = [p_ for p_ in map(_part, _alts(k.args[0], k)) if p_ is not None and p_[1] == -1]
+        qalts = [a_ for a_ in _alts(k.args[1], k) if not (isinstance(a_, ast.Constant) and a_.value is None)]
+        if not cols or not qalts:
+            continue  # not built from a list of parts / no qualifier
+        n_q += 1
+        quals = [_part(a_) for a_ in qalts]
+        ok = all(q_ is not None and q_[1] == -2 and q_[0] in {c_[0] for c_ in cols} for q_ in quals)
+        ctx.ob("R02.11", "qualifier-is-the-part-next-to-the-column", ok, loc(ecq.mod, k),
+               f"`{u(k)[:70]}`: " + ("column = parts[-1], qualifier = parts[-2] of the same parts" if ok else f"the qualifier `{u(qalts[0])[:50]}` is not the neighbouring part of the column (column is `{cols[0][0]}[-1]`)"))
+    ctx.floor("qualified column references built from a list of parts", n_q, 1)
